@@ -62,13 +62,9 @@ def parse_inline_params(s, preserve_order=True):
             re.findall(REGEX_VALUE_IN_QUOTES, v) or re.findall(REGEX_VALUE_IN_APOSTROPHES, v)
         )
 
-        # Remove leading and trailing double quotes.
-        v = re.sub('^"', "", v)
-        v = re.sub('"$', "", v)
-
-        # Remove leading and trailing single quotes.
-        v = re.sub("^'", "", v)
-        v = re.sub("'$", "", v)
+        # Remove the matching pair of leading and trailing double or single quotes.
+        if len(v) >= 2 and v[0] == v[-1] and v[0] in ('"', "'"):
+            v = v[1:-1]
 
         quotes_in_string = False
         if v != "":
